@@ -54,6 +54,39 @@ func deriveFacts(st *fstate, fs []*Term) []*Term {
 	for _, f := range fs {
 		switch f.S {
 		case "true", "false":
+			// before, after, found := strings.Cut(s, sep); found && !strings.Contains(after, sep): exactly two segments
+			if len(f.A) == 1 {
+				cutOf := func(t *Term, idx string) (*Term, bool) {
+					if t.K == "res" && t.S == idx && len(t.A) == 1 && t.A[0].K == "call" && t.A[0].S == "strings.Cut" && len(t.A[0].A) == 2 {
+						return t.A[0], true
+					}
+					return nil, false
+				}
+				holds := func(g *Term) bool {
+					if st.has(g) {
+						return true
+					}
+					for _, x := range fs {
+						if x.Key() == g.Key() {
+							return true
+						}
+					}
+					return false
+				}
+				if f.S == "true" {
+					if cut, ok := cutOf(f.A[0], "2"); ok {
+						if holds(fact("false", mk("call", "strings.Contains", mk("res", "1", cut), cut.A[1]))) {
+							add(fact("segs", cut.A[0], cut.A[1], mk("const", "2")))
+						}
+					}
+				} else if f.A[0].K == "call" && f.A[0].S == "strings.Contains" && len(f.A[0].A) == 2 {
+					if cut, ok := cutOf(f.A[0].A[0], "1"); ok && cut.A[1].Key() == f.A[0].A[1].Key() {
+						if holds(fact("true", mk("res", "2", cut))) {
+							add(fact("segs", cut.A[0], cut.A[1], mk("const", "2")))
+						}
+					}
+				}
+			}
 			if len(f.A) == 1 && f.A[0].K == "call" && f.A[0].S == "slices.Contains" && len(f.A[0].A) == 2 {
 				if f.S == "true" {
 					add(fact("member", f.A[0].A[1], f.A[0].A[0]))
@@ -91,8 +124,9 @@ func deriveFacts(st *fstate, fs []*Term) []*Term {
 			// "s consists of exactly n sep-separated segments", however it was counted
 			if f.S == "eq" {
 				for i := 0; i < 2; i++ {
-					if isConstS(f.A[1-i], "0") && f.A[i].K == "call" && f.A[i].S == "len" {
-						add(fact("le", f.A[i], mk("const", "0")))
+					if f.A[1-i].K == "const" && f.A[i].K == "call" && f.A[i].S == "len" && len(f.A[1-i].S) > 0 && f.A[1-i].S[0] >= '0' && f.A[1-i].S[0] <= '9' {
+						add(fact("le", f.A[i], f.A[1-i]))
+						add(fact("le", f.A[1-i], f.A[i]))
 					}
 				}
 				for i := 0; i < 2; i++ {
@@ -556,4 +590,104 @@ func (f *e1func) updateIndexLoopFacts(g *cfg.CFG, in []map[string]*fstate) bool 
 		}
 	}
 	return changed
+}
+
+
+// higherOrderFacts: slices.ContainsFunc(xs, pred) with pred a function literal (or a local variable holding one):
+// true  -> some(xs, F) for every fact F that pred(ELEM) == true establishes on all of its paths,
+// false -> all(xs, F)  for every fact F that pred(ELEM) == false establishes.
+func (f *e1func) higherOrderFacts(st *fstate, cond ast.Expr, val bool) []*Term {
+	call, ok := unparen(cond).(*ast.CallExpr)
+	if !ok || len(call.Args) != 2 {
+		return nil
+	}
+	ct := f.tb.callTerm(call)
+	if ct.K != "call" || ct.S != "slices.ContainsFunc" {
+		return nil
+	}
+	var lit *ast.FuncLit
+	switch a := unparen(call.Args[1]).(type) {
+	case *ast.FuncLit:
+		lit = a
+	case *ast.Ident:
+		if o := f.info.Uses[a]; o != nil {
+			ds := localDefsOf(f.fi)[o]
+			if len(ds) == 1 && ds[0].idx == -1 {
+				lit, _ = unparen(ds[0].e).(*ast.FuncLit)
+			}
+		}
+	}
+	if lit == nil || f.depth >= e1InlineDepth {
+		return nil
+	}
+	pfi := f.eng.c.P.FuncOfNode(lit)
+	if pfi == nil || pfi.Sig == nil || pfi.Sig.Params().Len() != 1 || pfi.Sig.Results().Len() != 1 {
+		return nil
+	}
+	g := &e1func{eng: f.eng, fi: pfi, info: pfi.Pkg.TypesInfo, caseTag: map[ast.Expr]ast.Expr{}, caseType: map[ast.Expr]ast.Expr{}, tsClause: map[*ast.CaseClause]ast.Expr{},
+		closureW: map[types.Object][]types.Object{}, statusOf: map[string]int{}, errIdx: -1, parent: f, depth: f.depth + 1, callPos: call.Pos()}
+	g.prepare()
+	// the literal shares the enclosing function's variables: keep the caller's inlined locals and substitutions
+	for o, e := range f.tb.inl {
+		if _, dup := g.tb.inl[o]; !dup {
+			g.tb.inl[o] = e
+		}
+	}
+	g.tb.sub = map[types.Object]*Term{}
+	for o, t := range f.tb.sub {
+		g.tb.sub[o] = t
+	}
+	p := pfi.Sig.Params().At(0)
+	if p.Name() == "" || p.Name() == "_" || g.assigned[p] != 0 || g.addrTaken[p] {
+		return nil
+	}
+	g.tb.sub[p] = elemTerm
+	g.entry = &fstate{facts: st.facts, key: st.key, from: st, via: "predicate of ContainsFunc"}
+	g.run()
+	var common map[string]*Term
+	for _, s := range g.sites {
+		if s.kind != "ret" {
+			continue
+		}
+		for i, es := range s.states {
+			if i >= len(s.sure) || !s.sure[i] || s.ok[i] != val {
+				if i < len(s.sure) && !s.sure[i] {
+					return nil // undecided outcome: nothing can be said
+				}
+				continue
+			}
+			cur := map[string]*Term{}
+			for k, fc := range es.facts {
+				if _, had := st.facts[k]; had {
+					continue
+				}
+				if !hasElem(fc) || mentionsLocalOf(fc, g) {
+					continue
+				}
+				switch fc.S {
+				case "def", "defx", "orig", "inloop", "called", "some", "all":
+					continue
+				}
+				cur[k] = fc
+			}
+			if common == nil {
+				common = cur
+			} else {
+				for k := range common {
+					if _, ok := cur[k]; !ok {
+						delete(common, k)
+					}
+				}
+			}
+		}
+	}
+	q := "all"
+	if val {
+		q = "some"
+	}
+	var out []*Term
+	for _, k := range sortedKeys(common) {
+		out = append(out, fact(q, ct.A[0], common[k]))
+	}
+	return out
 }
